@@ -23,3 +23,4 @@ import PPProofs.Props.C06Term
 #print axioms PP.Parse.acyclic_terminates_checked
 #print axioms PP.Parse.entry_points_terminate_checked
 #print axioms PP.Parse.acyclic_terminates_depth
+#print axioms PP.Parse.entry_points_terminate_depth
